@@ -1943,7 +1943,10 @@ impl Prop for TreeProp {
         ev.set("per_backend_transitions", json!(total.per_backend));
         ev.set("transitions_not_expanded_because_off_model", json!(total.off_model_pruned));
         ev.set("runs", json!(runs));
-        ev.set("exhaustive", json!(capped.is_empty()));
+        ev.set("exhaustive", json!(capped.is_empty() && only.is_none()));
+        if let Some(o) = &only {
+            ev.set("development_plan_filter", json!(o));
+        }
         ev.set("cap_hit", json!(capped));
         ev.set("evaluations", json!(total.impl_traces));
         ev.set("distinct_nontrivial", json!(total.transitions));
